@@ -235,8 +235,13 @@ class _Judge:
             skip = {'batch_data.elapsed_time'}
             where = 'edition-complete'
             if cls == 'end_flag' and pos == len(obs['batches']) - 1:
-                where = 'cut-in-its-end-flag-line'
-                if partial:
+                # only the edition's OWN end-flag line carries its time; some listings repeat
+                # the time line after the final state of the random generator: a cut there
+                # must not change the (complete) last edition
+                line_idx = self.tab.line_of(offset)
+                own = any(end == line_idx for _rag, end in self.tab.editions)
+                where = 'cut-in-its-end-flag-line' if own else 'cut-in-a-repeated-time-line'
+                if partial and own:
                     skip |= {'batch_data.simulation_time', 'batch_data.exploitation_time'}
             got = res[1]
             diff = sorted(p for p in set(got) | set(want[1])
